@@ -668,6 +668,15 @@ impl Live {
         s
     }
 
+    /// the line of an operation that is not observed (debugging: `C04_SDEBUG` shows the DOM and the ready tasks)
+    fn tilde(&self) -> String {
+        if std::env::var("C04_SDEBUG").is_ok() {
+            format!("~ {} ready={:?} res={:?}", plain(&self.root), sched::ready(), self.res_tasks)
+        } else {
+            "~".into()
+        }
+    }
+
     /// the resources' own tasks run as soon as they are woken (the idle-level model of the resources assumes it)
     fn run_resource_tasks(&mut self) {
         for _ in 0..10_000 {
@@ -888,7 +897,7 @@ impl Live {
                     return "bad-op".into();
                 }
                 self.cx.gates[g].open();
-                if op == "open" { self.line("") } else { "~".into() }
+                if op == "open" { self.line("") } else { self.tilde() }
             }
             "pset" => {
                 let (Some(id), Some(v)) =
@@ -905,7 +914,7 @@ impl Live {
                 }
                 s.set(v);
                 self.run_resource_tasks();
-                "~".into()
+                self.tilde()
             }
             "presolve" => {
                 let Some(rid) = t.next().and_then(|x| x.parse::<usize>().ok()) else { return "bad-op".into() };
@@ -914,7 +923,7 @@ impl Live {
                 }
                 self.gate.resolve(rid);
                 self.run_resource_tasks();
-                "~".into()
+                self.tilde()
             }
             "memo" => {
                 let Some(b) = parse_expr(&mut t) else { return "bad-op".into() };
@@ -995,7 +1004,7 @@ impl Live {
                         sched::poll(r[i % r.len()]);
                         self.run_resource_tasks();
                     }
-                    return "~".into();
+                    return self.tilde();
                 }
                 let polled = match sched::poll_nth_ready(i) {
                     Some(id) => self.taskmap.get(id).copied().flatten().map(|c| c.to_string()).unwrap_or("?".into()),
